@@ -41,7 +41,7 @@ func racePass() int {
 	jobs := raceJobs()
 	rot := 0
 	fmt.Sscanf(os.Getenv("VERIF_RACE_ROT"), "%d", &rot)
-	const G, rounds = 16, 6
+	const G, rounds = 16, 2
 	type obs struct {
 		job int
 		h   uint64
